@@ -57,7 +57,8 @@ func (c04) Thresholds(tier string) map[string]int64 {
 		"large-option-group":                  150,
 		"long-line":                           300,
 		"string-literals-with-escaped-quotes": 1000,
-		"inline:unary-on-literal":             800,
+		"option-group-with-a-side-effecting-function": 1000,
+		"inline:unary-on-literal":                     800,
 	}
 	for _, pos := range c04Positions {
 		for _, cl := range gen.TextClasses() {
@@ -88,7 +89,7 @@ var c04Pre = map[string]model.Val{
 	"frac": model.N(0.1 + 0.2), "tiny": model.N(1e-7), "mid": model.N(123456.5), "large": model.N(1234567.5),
 	"huge": model.N(1e21), "e15": model.N(1e15 + 0.5), "bigint": model.N(1e18), "third": model.N(1.0 / 3),
 	"near1": model.N(2.0000000001), "near2": model.N(math.Nextafter(3, 4)), "near3": model.N(-7.0000000002), "near4": model.N(0.1 * 3 * 10), "near5": model.N(math.Nextafter(1e6, 0)),
-	"yes": model.B(true), "no": model.B(false), "round": model.N(0),
+	"yes": model.B(true), "no": model.B(false), "round": model.N(0), "cnt": model.N(0),
 	"s": model.S("str"), "pad": model.S(" pad "), "uni": model.S("Ünï 日本 😀"), "empty": model.S(""),
 }
 
@@ -247,6 +248,27 @@ func (p c04) Run(c *core.Ctx) {
 	}
 	// half of the scripts show the whole node a second time (same runner, same parsed tree): every line and
 	// option must be rendered as written again
+	// an option group in which a host function with a side effect on the store is called by one option and
+	// the variable it writes is shown and tested by the others: every text and condition of a group is
+	// evaluated once, in order, on the store as it is then
+	{
+		id++
+		g := &hast.Stmt{K: hast.SOptions, ID: id, Options: []*hast.Option{
+			{Parts: []hast.Part{hast.Lit("before "), hast.Inl(hast.Var("cnt"))}, Cond: hast.Bin("==", hast.Var("cnt"), hast.Num("0"))},
+			{Parts: []hast.Part{hast.Lit("bump "), hast.Inl(hast.Call("bump"))}},
+			{Parts: []hast.Part{hast.Lit("after "), hast.Inl(hast.Var("cnt"))}, Cond: hast.Bin("==", hast.Var("cnt"), hast.Num("0"))},
+			{Parts: []hast.Part{hast.Lit("cond ")}, Cond: hast.Bin(">", hast.Call("bump"), hast.Num("100"))},
+			{Parts: []hast.Part{hast.Lit("last "), hast.Inl(hast.Var("cnt"))}},
+		}}
+		at := r.Intn(len(body) + 1)
+		for at > 0 && body[at-1].K == hast.SOptions || at < len(body) && body[at].K == hast.SOptions {
+			at = (at + 1) % (len(body) + 1)
+		}
+		id++
+		sep := &hast.Stmt{K: hast.SLine, Parts: []hast.Part{hast.Lit(fmt.Sprintf("sep%d", id))}, ID: id}
+		body = append(body[:at:at], append([]*hast.Stmt{g, sep}, body[at:]...)...)
+		c.Feature("option-group-with-a-side-effecting-function")
+	}
 	again := r.Bool()
 	if again {
 		// a line and an option that consist of one inline expression only, whose value differs at the second showing
